@@ -34,7 +34,7 @@ package ignore
 // Stand-alone comment: the scope ends at the end of the declaration it precedes, or at the END of a node of the
 // enclosing declaration that starts after the comment (0 if there is none).
 //@ func findNextNodeAfterComment
-//@   props C07 C10
+//@   props C07 C12 C10
 //@   ensures result == 0 || (exists d int :: 0 <= d && d < len(file.Decls) && file.Decls[d].End() > commentPos && ((commentPos < file.Decls[d].Pos() && result == file.Decls[d].End()) || (file.Decls[d].Pos() <= commentPos && (exists n ast.Node :: n != nil && inspIn(n, file.Decls[d]) && n.Pos() > commentPos && result == n.End()))))
 //@   assigns nothing
 //@   at call ast.Inspect#1 invariant nextEnd == 0 || (exists n ast.Node :: n != nil && inspIn(n, decl) && n.Pos() > commentPos && nextEnd == n.End())
@@ -42,7 +42,7 @@ package ignore
 // Inline comment: some node of the enclosing declaration starts before the comment and ends on the comment's line (or the
 // previous top-level declaration ends on that line); the scope is the comment's line up to the end of the comment.
 //@ func findInlineNode
-//@   props C07 C17 C10
+//@   props C07 C17 C12 C10
 //@   requires fset != nil
 //@   ensures !found ==> start == 0 && end == 0
 //@   ensures found ==> fset.File(comment.Pos()) != nil && start == fset.File(comment.Pos()).LineStart(fset.Position(comment.Pos()).Line) && end == comment.End()
@@ -73,7 +73,7 @@ package ignore
 // as language inclusions under C15, and parseIgnoreAnnotation == nil, whose contract says "not an @ignore line").
 //@ func ReadIgnoreAnnotations
 //@   merge
-//@   props C07 C08 C14 C17 C10
+//@   props C07 C08 C14 C17 C12 C10
 //@   requires cfg != nil && pass.Fset != nil
 //@   fresh
 //@   assigns nothing
